@@ -81,9 +81,9 @@ Proof.
   assert (M1 : mid must s s1).
   { eapply mid_trans; [apply (emit_mid must s (THook h (ty_id (c_ty c)) tag (s_pool s))); reflexivity|].
     apply quiet_mid; [reflexivity | repeat split]. }
-  set (s2 := if is_before_save_hook h && memz (s_k s) (c_sets c) then set_column c i (1000 + s_k s) s1 else s1).
+  set (s2 := if (is_before_save_hook h || (x_setafter (c_x c) && is_after_write_hook h)) && memz (s_k s) (c_sets c) then set_column c i (1000 + s_k s) s1 else s1).
   assert (M2 : mid must s s2).
-  { subst s2. destruct (is_before_save_hook h && memz (s_k s) (c_sets c)); [|exact M1].
+  { subst s2. destruct ((is_before_save_hook h || (x_setafter (c_x c) && is_after_write_hook h)) && memz (s_k s) (c_sets c)); [|exact M1].
     eapply mid_trans; [exact M1|]. destruct (set_column_quiet c i (1000 + s_k s) s1). apply quiet_mid; assumption. }
   destruct (memz (s_k s) (c_fails c)); [|exact M2].
   eapply mid_trans; [exact M2|]. apply quiet_mid; [reflexivity | repeat split].
